@@ -33,7 +33,7 @@ func (st *c02step) observe(t DTree) {
 	st.nkeys = len(t.Keys())
 }
 
-func c02Term(kindCoq string, path []mop, branch bool, steps []c02step) string {
+func c02Term(kindCoq string, c cmpCfg, path []mop, branch bool, steps []c02step) string {
 	ps := make([]string, len(path))
 	for i, o := range path {
 		ps[i] = o.coq()
@@ -50,8 +50,8 @@ func c02Term(kindCoq string, path []mop, branch bool, steps []c02step) string {
 		}
 		ss[i] = fmt.Sprintf("(%s, %s, %s, %s, %s, %s)", coqList(pre), s.o.coq(), d, zi(s.size), vhlib.Bool(s.empty), zi(s.nkeys))
 	}
-	return fmt.Sprintf("{| c_kind := %s; c_path := %s; c_branch := %s; c_steps := %s |}",
-		kindCoq, coqList(ps), vhlib.Bool(branch), coqList(ss))
+	return fmt.Sprintf("{| c_kind := %s; c_cmp := %s; c_path := %s; c_branch := %s; c_steps := %s |}",
+		kindCoq, c.coq, coqList(ps), vhlib.Bool(branch), coqList(ss))
 }
 
 func applyOp(t DTree, o mop) {
@@ -75,46 +75,62 @@ func opWords(ops []mop) []string {
 
 // every reachable shape x every next operation: BFS keyed by canonical dump; one case per shape
 func shapeBFS(w *vhlib.Writer, k treeKind, U int, maxStates int) {
+	curLabel = k.label + "/shapes"
+	// shapes are discovered on a reference instance (built-in comparator, dense keys 1..U); the recorded run of
+	// each shape uses the next comparator shape / key spread of the rotation
 	seen := map[string]bool{}
 	{
-		t := k.mk()
+		t := k.mk(plainCfg.f)
 		seen[dumpKey(t.Dump())] = true
 	}
 	queue := [][]mop{nil}
 	trans := 0
+	stateNo := 0
 	for len(queue) > 0 {
 		path := queue[0]
 		queue = queue[1:]
+		cfg := cmpCfgs[stateNo%len(cmpCfgs)]
+		stateNo++
+		spath := spreadOps(path, cfg, false)
 		var steps []c02step
 		var labels []string
 		for kk := 1; kk <= U; kk++ {
 			for _, kind := range []int{0, 1} {
 				o := mop{kind, kk, kk}
-				t := k.mk()
-				for _, po := range path {
-					applyOp(t, po)
-				}
-				st := c02step{o: o}
-				p, _ := vhlib.Recover(func() {
-					applyOp(t, o)
+				so := spreadOps([]mop{o}, cfg, false)[0]
+				t := k.mk(cfg.f)
+				st := c02step{o: so}
+				p, _ := guard(so.coq(), opWords(spath), func() {
+					for _, po := range spath {
+						applyOp(t, po)
+					}
+					applyOp(t, so)
 					st.observe(t)
 				})
 				st.panic = p
 				steps = append(steps, st)
 				labels = append(labels, o.label())
 				trans++
-				if p {
+				var key string
+				if rp, _ := guard("reference replay", opWords(path), func() {
+					ref := k.mk(plainCfg.f)
+					for _, po := range path {
+						applyOp(ref, po)
+					}
+					applyOp(ref, o)
+					key = dumpKey(ref.Dump())
+				}); rp {
 					continue
 				}
-				key := dumpKey(st.dump)
 				if !seen[key] && len(seen) < maxStates {
 					seen[key] = true
 					queue = append(queue, append(append([]mop{}, path...), o))
 				}
 			}
 		}
-		w.Case(c02Term(k.coq, path, true, steps), k.label+"/shapes", true, labels,
-			map[string]interface{}{"tree": k.label, "path": opWords(path), "then": "every Put/Remove over the universe", "universe": U})
+		w.Case(c02Term(k.coq, cfg, spath, true, steps), k.label+"/shapes", true, labels,
+			map[string]interface{}{"tree": k.label, "comparator": cfg.coq, "path": opWords(spath), "then": "every Put/Remove over the universe", "universe": U, "spread": cfg.spread})
+		w.Dist["comparator "+cfg.coq]++
 		spread.tick()
 	}
 	w.Notes["shapes "+k.label] = fmt.Sprintf("universe 1..%d: %d reachable shapes, %d transitions", U, len(seen), trans)
@@ -126,14 +142,17 @@ func shapeBFS(w *vhlib.Writer, k treeKind, U int, maxStates int) {
 // profiled random sequence; dump after every operation (dense) or after every 2^j-th operation (sparse)
 func shapeProfile(w *vhlib.Writer, k treeKind, prof string, rng *vhlib.Rng, n int, dense bool) {
 	ops := profile(prof, rng, n)
-	t := k.mk()
+	curLabel = k.label + "/" + prof
+	cfg := pickCfg(rng, maxAbsKey(ops, false))
+	ops = spreadOps(ops, cfg, false)
+	t := k.mk(cfg.f)
 	var steps []c02step
 	var labels []string
 	var pre []mop
 	next := 1
 	for i, o := range ops {
 		if !dense && i+1 != next && i != len(ops)-1 {
-			p, _ := vhlib.Recover(func() { applyOp(t, o) })
+			p, _ := guard(o.coq(), fmt.Sprintf("operation %d of the sequence", i), func() { applyOp(t, o) })
 			if !p {
 				pre = append(pre, o)
 				continue
@@ -148,7 +167,7 @@ func shapeProfile(w *vhlib.Writer, k treeKind, prof string, rng *vhlib.Rng, n in
 		}
 		st := c02step{pre: pre, o: o}
 		pre = nil
-		p, _ := vhlib.Recover(func() {
+		p, _ := guard(o.coq(), fmt.Sprintf("operation %d of the sequence", i), func() {
 			applyOp(t, o)
 			st.observe(t)
 		})
@@ -159,9 +178,15 @@ func shapeProfile(w *vhlib.Writer, k treeKind, prof string, rng *vhlib.Rng, n in
 			break
 		}
 	}
-	w.Case(c02Term(k.coq, nil, false, steps), k.label+"/"+prof, len(ops) >= 2, labels,
-		map[string]interface{}{"tree": k.label, "ops": opWords(ops)})
+	w.Case(c02Term(k.coq, cfg, nil, false, steps), k.label+"/"+prof, len(ops) >= 2, labels,
+		map[string]interface{}{"tree": k.label, "comparator": cfg.coq, "ops": opWords(ops)})
+	w.Dist["comparator "+cfg.coq]++
 }
+
+const c02Rule = "one case = one tree (red-black, AVL, B-tree of order m); shapes cases = one reachable shape (BFS over canonical dumps of the real tree over a " +
+	"small key universe) with EVERY next Put/Remove applied to it, each followed by a full pre-order dump (key, colour | balance factor | node entries, " +
+	"children, parent key) and Size(); profile cases = seeded sequences with a dump after every operation (dense) or after every 2^j-th operation (large trees); " +
+	"distinct = distinct case terms; non-trivial = at least two operations"
 
 func runC02(o vhlib.Opts) {
 	rng := vhlib.NewRng(o.Seed)
@@ -169,11 +194,12 @@ func runC02(o vhlib.Opts) {
 	if o.Thorough() {
 		shardSize = 40
 	}
-	w := vhlib.NewWriter(o.Out, "From VF Require Import Common.Base C01.SortedMap C02.Check.\nLocal Open Scope Z_scope.", "case", "mismatches", shardSize)
+	w := vhlib.NewWriter(o.Out, "From VF Require Import Common.Base C01.CmpSel C01.SortedMap C02.Check.\nLocal Open Scope Z_scope.", "case", "mismatches", shardSize)
 	thorough := o.Thorough()
+	startWatchdog(w, o, c02Rule)
 	orders := []int{3, 4, 5, 6, 7, 8, 9, 16, 64}
 	kinds := treeKinds(orders)
-	u := map[string]int{"rb": 6, "avl": 6, "bt3": 7, "bt4": 7, "bt5": 7, "bt6": 7}
+	u := map[string]int{"rb": 6, "avl": 6, "bt3": 7, "bt4": 6, "bt5": 7, "bt6": 7}
 	if thorough {
 		u = map[string]int{"rb": 9, "avl": 8, "bt3": 11, "bt4": 10, "bt5": 10, "bt6": 10, "bt7": 9}
 	}
@@ -224,8 +250,5 @@ func runC02(o vhlib.Opts) {
 		}
 	}
 	spread.drain()
-	w.Close(o, "one case = one tree (red-black, AVL, B-tree of order m); shapes cases = one reachable shape (BFS over canonical dumps of the real tree over a "+
-		"small key universe) with EVERY next Put/Remove applied to it, each followed by a full pre-order dump (key, colour | balance factor | node entries, "+
-		"children, parent key) and Size(); profile cases = seeded sequences with a dump after every operation (dense) or after every 2^j-th operation (large trees); "+
-		"distinct = distinct case terms; non-trivial = at least two operations")
+	w.Close(o, c02Rule)
 }
